@@ -386,6 +386,9 @@ class Unit:
             sig = sig.rstrip()
         body = rf.text[bo:end] if bo is not None else ';'
         body_line = rf.line_of(bo) if bo is not None else None
+        if fn.external_body and bo is not None:
+            # the body of an assumed (external_body) function is not emitted at all
+            body = '{ unimplemented!() }'
         if fn.region:
             ra, rb, rsig, rtail = fn.region
             full = rf.text[bo:end]
